@@ -54,6 +54,10 @@ def cases(tier, seed):
     for r in range(reps):
         for name, eq in MODEL_CASES:
             out.append({"kind": "saveload", "model": name, "equivariant": eq, "rep": r})
+    # checkpoints written by the training loop itself (ml.train(save_model=...)): what is on disk after training is the
+    # model of the last multiple-of-ten epoch, bit for bit
+    for r in range(2 if tier == "quick" else 8):
+        out.append({"kind": "checkpoint", "rep": r})
     return out
 
 
@@ -105,7 +109,71 @@ def ids_multiset(mi):
 def run(case, ctx):
     if case["kind"] == "chain":
         return run_chain(case, ctx)
+    if case["kind"] == "checkpoint":
+        return run_checkpoint(case, ctx)
     return run_saveload(case, ctx)
+
+
+def run_checkpoint(case, ctx):
+    import contextlib
+    import io
+
+    import jax
+    import jax.numpy as jnp
+    import optax
+    import ginjax.geometric as geom
+    import ginjax.ml as ml
+
+    rng = rng_for(ctx["seed"], ID, case["i"])
+    D, N, L = 2, 4, 4
+    name = ["ConvBlock", "ResNet"][case["rep"] % 2]
+    epochs = int([10, 12, 20, 23][case["rep"] % 4])
+    key = {"kind": "checkpoint", "model": name, "epochs": epochs}
+    viols = []
+    tmp = tempfile.mkdtemp(prefix="vmon_c13_")
+    try:
+        model, in_sig = make_model(name, True, D, np.random.default_rng([ctx["seed"], case["i"]]), 77 + case["rep"])
+        template, _ = make_model(name, True, D, np.random.default_rng([ctx["seed"], case["i"]]), 991 + case["rep"])
+        X = geom.MultiImage({t: jnp.asarray(rng.normal(size=(L, c, N, N) + (D,) * t[0]).astype(np.float32)) for t, c in in_sig}, D, True)
+        with contextlib.redirect_stdout(io.StringIO()):
+            Y = jax.vmap(lambda xi: model(xi)[0])(X)
+        Y = geom.MultiImage({t: v + 0.3 for t, v in Y.items()}, D, True)
+        seen = {}
+
+        class Recorder(ml.EpochStop):
+            def stop(self, model, current_epoch, train_loss, val_loss, epoch_time):
+                seen[int(current_epoch)] = model
+                return super().stop(model, current_epoch, train_loss, val_loss, epoch_time)
+
+        def map_and_loss(m, x, y, aux):
+            return ml.smse_loss(jax.vmap(lambda xi: m(xi)[0])(x), y), aux
+
+        path = os.path.join(tmp, "ckpt.eqx")
+        with contextlib.redirect_stdout(io.StringIO()):
+            ml.train(X, Y, map_and_loss, model, jax.random.PRNGKey(case["i"]), Recorder(epochs, verbose=0), 2, optax.sgd(1e-3), save_model=path)
+        last = (epochs // 10) * 10
+        if not os.path.exists(path):
+            viols.append(viol("checkpoint-missing", f"ml.train(save_model=...) ran {epochs} epochs and wrote no file; {key}"))
+        elif last not in seen:
+            viols.append(viol("harness-no-model-recorded", f"stop() was never called with epoch {last} (harness problem); {sorted(seen)}"))
+        else:
+            loaded = ml.load(path, template)
+            want = [np.asarray(v) for v in jax.tree_util.tree_leaves(seen[last]) if hasattr(v, "shape")]
+            got = [np.asarray(v) for v in jax.tree_util.tree_leaves(loaded) if hasattr(v, "shape")]
+            if len(want) != len(got) or any(a.shape != b.shape or not np.array_equal(a, b) for a, b in zip(want, got)):
+                others = [e for e in sorted(seen) if e != last and len(jax.tree_util.tree_leaves(seen[e])) == len(got) and all(np.array_equal(np.asarray(a), np.asarray(b)) for a, b in zip([v for v in jax.tree_util.tree_leaves(seen[e]) if hasattr(v, "shape")], got))]
+                viols.append(viol("checkpoint-not-the-model-of-its-epoch", f"the file written by ml.train after {epochs} epochs does not hold the parameters of epoch {last} (matches epochs {others}); {key}"))
+            x1 = X.get_one(0, keepdims=False)
+            ya, yc = seen[last](x1)[0], loaded(x1)[0]
+            if any(not np.array_equal(np.asarray(ya[t]), np.asarray(yc[t])) for t in ya.keys()):
+                viols.append(viol("save-load-output-differs", f"checkpoint of epoch {last} loaded into a same-structured model gives different outputs; {key}"))
+    except Exception as e:
+        import traceback
+
+        viols.append(viol(f"checkpoint-exception-{type(e).__name__}", f"{type(e).__name__}: {str(e)[:300]}; {traceback.format_exc()[-500:]}"))
+    finally:
+        shutil.rmtree(tmp, ignore_errors=True)
+    return result(key, viols, True, evals=2, obs={"training_checkpoints": 1}, hist={"saveload_model": f"{name}/checkpoint", "saveload_variant": "train-checkpoint"}, sample={"key": key})
 
 
 REPS = ("float32", "float32", "float32", "int32", "float64-x64")
